@@ -10,7 +10,7 @@ namespace Pyiga.Gen.HashKeys
 open Pyiga.VForm
 
 def keyTable : KeyTable :=
-  [(.Const, []),
+  [(.Const, [.value]),
    (.LitVec, []),
    (.LitMat, []),
    (.VarRef, [.varName, .I, .D, .parametric]),
@@ -37,7 +37,7 @@ def baseHashHasTypeShapeChildren : Bool := true
 def unknownCodegenReads : List String := []
 
 /-- disagreements between the ast extraction and the probing of live instances -/
-def extractionMismatches : List String := ["ConstExpr: ast [] vs probe ['value']", "ConstExpr.hash_key: element repr(self.value) not understood"]
+def extractionMismatches : List String := []
 
 theorem keyTable_complete : KeyTableComplete keyTable = true := by decide
 theorem fkeyTable_complete : FKeyTableComplete fkeyTable = true := by decide
